@@ -17,7 +17,8 @@ RULE = ("the real bmc()/pdr() on small transition systems (2 hand-written + sysg
         "stats: pdr-full-enumeration, pdr-check-points-answered-unknown-by-the-context, ctx-fault-x-nominal-x-outcome")
 ASSUMPTIONS = [
     "Model/SolverIO.v mirrors solver.rs read_response/read_sat_response/write_cmd/Drop and bmc.rs' conversation (hand-written; tied by running "
-    "the extracted model on the byte transcript of every run)",
+    "the extracted model on the byte transcript of every run); which reader variant mirrors /repo is ONE constant, repo_reader in "
+    "ocaml/driver/c15.ml: Fix (continuation lines joined with an extra blank; /repo today) or Fix2 (/repo after patches/0019)",
     "the S-expression parser (smt/parser.rs, property C14) is a parameter of the model: accepts/rejects; in the driver a small recognizer of "
     "((term value)) / (term*) replies stands in for it",
     "a LIVE solver that has written a lexically incomplete reply (open parenthesis outside literals, unterminated string literal) and then "
@@ -29,7 +30,10 @@ ASSUMPTIONS = [
     "context-level faults (Ok(Unknown) / Err returned by a SolverContext method) have no Coq model behind them: the real SmtLibSolverCtx never "
     "returns Ok(Unknown) (C15_never_unknown), so pdr.rs' Unknown arms are reachable only through another SolverContext; they are checked by the "
     "oracle alone, and a run that ends with the fault-free verdict after an Unknown answer is accepted (conservative handling is legitimate)",
-    "PDR: only the faulty call is modelled (pdr.rs propagates every error with `?`); the PDR algorithm itself is not",
+    "PDR, byte level: only the faulty call is run through the byte-level model (pdr.rs propagates every error with `?`).  PDR, algorithm level: "
+    "the concrete model Model/PdrImpl.v (tied to pdr.rs by ./check C10, trace hook) has the fault theorems C15_pdr_model_* (an error answer / a "
+    "failing command / an unknown answer at ANY position of a run; a verdict rests on intact answers only); its oracle abstracts the solver "
+    "context, so these theorems and the byte-level ones meet at the SolverContext interface (Err / Ok(Unknown) / Ok(answer))",
     "faulty runs reuse the recorded replies of the fault-free run while the command stream is byte-identical (1 in 10 runs uses a live z3 throughout)",
 ]
 TRUSTED = ["harness/src/bin/solver-shim.rs (fault injection, transcript log) and the watchdog in harness/src/c15.rs",
@@ -59,8 +63,15 @@ MANIFEST = dict(
     level_text=("Coq theorems about the byte-level model of SmtLibSolverCtx (all streams, all messages, all client programs): the repaired reader "
                 "always returns (C15_read_total), sat/unsat only for an exact line (C15_sat_only_on_exact), error messages unmangled "
                 "(C15_error_unmangled, _plain), blocks only on an open reply of a live solver (C15_blocked_only_on_open_reply), every client that propagates with `?` - BMC in particular - returns the first failure and a verdict only "
-                "from intact replies (C15_bmc_propagates); the CURRENT reader is refuted on all three counts with concrete streams "
-                "(C15_read_total_refuted, C15_error_unmangled_refuted).  Tie to /repo: real bmc()/pdr() runs against z3 behind a fault-injecting "
+                "from intact replies (C15_bmc_propagates); the ORIGINAL reader is refuted on all three counts with concrete streams "
+                "(C15_read_total_refuted, C15_error_unmangled_refuted).  Reader variant Fix2 (= Fix without the blank pushed before every "
+                "continuation line, patches/0019): all of the above restated (C15_fix2_*), plus C15_error_unmangled_multiline - an error reply whose "
+                "message spans several lines (any bytes but the double quote), split into lines in any way, is reported with exactly its message - "
+                "which is refuted for Fix by a two-line reply (C15_error_unmangled_multiline_refuted).  PDR: over the concrete model of pdr.rs "
+                "(Model/PdrImpl.v) an error answer or a failing command at ANY position of a run is the run's result, an unknown answer to "
+                "get_bad_cube / fix_gen_cube queries likewise, and a run that returns a verdict consulted only intact answers "
+                "(C15_pdr_model_error_any_position, _cmd_failure_any_position, _unknown_any_position, _verdict_intact, _log_complete; "
+                "C15_pdr_model_propagates, _unknown).  Tie to /repo: real bmc()/pdr() runs against z3 behind a fault-injecting "
                 "proxy, every response point x every fault kind, compared with the extracted model on the recorded bytes."),
-    level_note="Trusted: Coq kernel; hand-written model tied by differential execution; shim + watchdog + OCaml oracle. Repaired in /repo through this check: spin on end-of-stream inside an open reply, error-message slice panics/mangles, '(' inside a message blocks, parser todo!s, unknown answers in bmc. Open finding: a multi-line error message arrives with a blank after each line break. Blocking on a LIVE solver whose reply is lexically open is the documented behaviour (C15_blocked_only_on_open_reply).",
+    level_note="Trusted: Coq kernel; hand-written model tied by differential execution; shim + watchdog + OCaml oracle. Repaired in /repo through this check: spin on end-of-stream inside an open reply, error-message slice panics/mangles, '(' inside a message blocks, parser todo!s, unknown answers in bmc. Open finding: a multi-line error message arrives with a blank after each line break (repair: patches/0019-fix-read-response-no-extra-blank.diff, model variant Fix2; after it is committed in /repo flip repo_reader in ocaml/driver/c15.ml to Fix2 and turn the finding line into a fixed: line). Blocking on a LIVE solver whose reply is lexically open is the documented behaviour (C15_blocked_only_on_open_reply).",
 )
